@@ -30,6 +30,8 @@ type FuncReport struct {
 	Notes       []string
 	Unsupported string
 	CoverPCs    [][]*Term
+	CoverSites  []string // return site of each CoverPCs entry
+	DeadOK      []string // return sites the contract declares unreachable
 	EntryPC     []*Term
 	Probes      map[string]*Term
 	Template    *ReplayTemplate
@@ -183,6 +185,7 @@ func (e *Engine) verifyFunc(fn *ssa.Function, c *Contract, prop string) (rep *Fu
 		}
 		rep.Returns++
 		rep.CoverPCs = append(rep.CoverPCs, o.st.pc)
+		rep.CoverSites = append(rep.CoverSites, o.site)
 		ovars := map[string]SVal{}
 		for k, v := range vars {
 			ovars[k] = v
